@@ -3,6 +3,111 @@ from vlib.catalogue import select
 from vlib.catobs import obligations
 
 
+# a packet that was already packed (or parsed) and is then changed: pack() must serialise the CURRENT values
+REPACK = '''%(prelude)s
+
+
+class Sub(Packet):
+    __bisturi__ = {%(opts)s}
+    f = Bits(1)
+    g = Bits(7)
+
+
+class K(Packet):
+    __bisturi__ = {%(opts)s}
+    a = Bits(3)
+    b = Bits(5)
+    c = Bits(12)
+    d = Bits(4)
+    i = Int(2)
+    n = Int(1)
+    body = Data(n)
+    r = Ref(Sub)
+    s = Ref(Sub).repeated(1)
+
+
+NAMES = ("a", "b", "c", "d", "i")
+WIDTH = {"a": 3, "b": 5, "c": 12, "d": 4, "i": 16}
+
+
+def _set(p, vals, body, sub):
+    for nm, v in zip(NAMES, vals):
+        setattr(p, nm, v)
+    p.n = len(body)
+    p.body = body
+    p.r.f, p.r.g = sub[0], sub[1]
+    if len(p.s) != 1:
+        p.s = [Sub()]       # (a repeated field defaults to the empty list)
+    p.s[0].f, p.s[0].g = sub[2], sub[3]
+
+
+def _obs(p):
+    return tuple(getattr(p, nm) for nm in NAMES) + (p.n, p.body, p.r.f, p.r.g, p.s[0].f, p.s[0].g)
+
+
+def _mk(start):
+    def h(ones: bool, v2: List[int], b1: bytes, b2: bytes, raw: bytes) -> str:
+        assume(len(v2) == 9 and len(b1) <= 2 and len(b2) <= 2)
+        # the values held BEFORE the change are one of two concrete bit patterns (all ones / alternating), the values
+        # assigned afterwards are symbolic
+        if ones:
+            v1 = [(1 << WIDTH[nm]) - 1 for nm in NAMES] + [1, 127, 1, 127]
+        else:
+            v1 = [0x5555 & ((1 << WIDTH[nm]) - 1) for nm in NAMES] + [0, 0x55, 1, 0x2a]
+        for nm, v in zip(NAMES, v2):
+            assume(0 <= v < (1 << WIDTH[nm]))
+        assume(0 <= v2[5] <= 1 and 0 <= v2[6] <= 127 and 0 <= v2[7] <= 1 and 0 <= v2[8] <= 127)
+        if start == "parsed":
+            raw = fix(raw, 9)
+            p = K.unpack(raw, silent=True)
+            if p is None:
+                return "ok:rejected"
+        else:
+            p = K()
+            _set(p, v1[:5], b1, v1[5:])
+            if start == "packed":
+                p.pack()
+            elif start == "checked":
+                p.assert_consistency()
+        _set(p, v2[:5], b2, v2[5:])
+        want = _obs(p)
+        try:
+            out = p.pack()
+        except PacketError:
+            return "FAIL sig=C02|pack-raised-for-consistent-values|x_repack|%%s" %% start
+        if _obs(p) != want:
+            return "FAIL sig=C02|pack-changed-the-values|x_repack|%%s" %% start
+        try:
+            q = K.unpack(out)
+        except PacketError:
+            return "FAIL sig=C02|reparse-rejected|x_repack|%%s out=%%r" %% (start, out)
+        if _obs(q) != want:
+            return "FAIL sig=C02|reparse-values-differ|x_repack|%%s got=%%r want=%%r" %% (start, _obs(q), want)
+        return "ok:accepted"
+    return h
+
+
+HARNESSES = {"fresh": _mk("fresh"), "packed": _mk("packed"), "checked": _mk("checked"), "parsed": _mk("parsed")}
+'''
+
+
+def _repack_obligations():
+    from vlib import spec as S
+    obs = []
+    for gen, opts in (("generic", "'generate_for_pack': False, 'generate_for_unpack': False"), ("generated", "")):
+        obs.append({"id": "C02/x_repack/%s" % gen, "module": "c02_x_repack_%s" % gen,
+                    "source": (REPACK % dict(prelude=S.PRELUDE, opts=opts)).replace("from vlib.hx import assume, fix", "from typing import List\nfrom vlib.hx import assume, fix"),
+                    "fn": ["fresh", "packed", "checked", "parsed"], "required_tags": ["accepted"], "timeout": 240,
+                    "bound": "K (Bits 3+5, 12+4; Int(2); n + Data(n); Ref(Sub) and a one-element sequence of Sub with Bits 1+7): the packet "
+                             "is new / was packed / was checked with assert_consistency / was parsed from 9 symbolic bytes, THEN every "
+                             "field is assigned a symbolic in-range value (body <= 2 bytes); values before the change: two concrete bit "
+                             "patterns (all ones / alternating) or what the parse gave",
+                    "assertion": "unpack(pack()) gives back exactly the values the packet holds now; pack() does not change them",
+                    "decl_text": "K(a Bits(3); b Bits(5); c Bits(12); d Bits(4); i Int(2); n Int(1); body Data(n); r Ref(Sub); "
+                                 "s Ref(Sub).repeated(1)); Sub(f Bits(1); g Bits(7))"})
+    return obs
+
+
 def build(tier, seed):
     entries = [e for e in select(tier, exclude=("regex_lossy", "regex_nokeep", "alwaysoverlap", "rawcb")) if "P" not in e["tags"] or tier != "quick"]
     if tier == "quick":
@@ -12,7 +117,8 @@ def build(tier, seed):
                                 "conditions, delimiter-free bodies); Cls(**values) and attribute assignment: pack() == in-order "
                                 "layout of the reference encoder; unpack(pack()) succeeds, consumes everything, equal values; "
                                 "assert_consistency() is True")
-    return {"obligations": obs, "bounds": {"declarations": [e["key"] for e in entries],
+    obs += _repack_obligations()
+    return {"obligations": obs, "bounds": {"declarations": [e["key"] for e in entries] + ["x_repack"],
                                            "values": "every consistent assignment whose encoding fits the per-declaration length bound"},
             "outside": ["assignments whose encoding is longer than the bound",
                         "byte strings ended by a regex delimiter that is not kept in the value: the value does not determine the "
